@@ -1,10 +1,15 @@
 import STProofs.PPolyLookup
 import STProofs.PPolyRoutes
 import STProofs.PPolyDeriv
+import STProofs.Trajectory
 /-! # C03 — lookup is the half-open-interval piece, clamped; the hint never matters; caches never change a value;
 hinted = plain (`evaluateHint_eq`) and batch = pointwise (`evaluateBatch_eq`) for every cache state.
 derivative trajectory: `derivative_route` — evaluating `derivative(k)` at order `j` is evaluating the original at order `k+j`
-(well-formed object, every cache state; the falling-factorial factors compose: `factorEntry_comp`). -/
+(well-formed object, every cache state; the falling-factorial factors compose: `factorEntry_comp`). 
+Joined with the spline builders: `Traj.traj_eval` — evaluating the trajectory a spline publishes at any `t` is the
+Horner value of the stacked block of segment `specIdx t` at local time `t − t_i` (lookup + evaluation + publication in one
+statement).
+-/
 open ST
 example : specIdx ([0, 1, 3] : List ℚ) 1 = 1 ∧ specIdx ([0, 1, 3] : List ℚ) (1/2) = 0 ∧ specIdx ([0, 1, 3] : List ℚ) 7 = 1 ∧ specIdx ([0, 1, 3] : List ℚ) (-2) = 0 := by
   simp [specIdx, countLE]; norm_num
